@@ -250,6 +250,15 @@ class Run:
             self.recs[name] = dict(self.recs[copy_of])
             return name
         self.recs[name] = {}
+        # members that are asl arrays start as empty modelled arrays (their own default construction)
+        rdef = self.prog.records.get(cls) or {}
+        for fl in rdef.get('fields', []):
+            ft = T(rdef, fl['t'])
+            if ft.get('recp') == 'asl::Array' and not ft.get('ref') and not ft.get('ptr'):
+                aid = 'marr%d' % next(_UNIQ)
+                self.bufs[('O', aid)] = []
+                self.objlen[aid] = 0
+                self.recs[name][fl['n']] = ('P', ('O', aid), 0)
         if ctor_expr is not None:
             ctors = [g for g in self.prog.fn(ctor_expr.get('fn'), ctor_expr.get('sig')) if g.get('body')]
             if not ctors:
@@ -622,7 +631,7 @@ class Run:
             o = strip_lv(o['obj'])          # a smart-pointer member: p.operator->()
             while o.get('k') in ('temp', 'paren'):
                 o = strip_lv(o['e'])
-        if self.objects and (o.get('k') == 'mem' or (o.get('k') == 'un' and o.get('op') == '*')) and e.get('arrow', True):
+        if self.objects and (o.get('k') == 'mem' or (o.get('k') == 'un' and o.get('op') == '*')):
             # p->member(): p is a member / record field / pointer that refers to a modelled object
             try:
                 pv = self.val(o if o.get('k') == 'mem' else o['e'])
